@@ -21,6 +21,7 @@ def slow_scenarios(rng, p):
 
 
 def make_corpus(c, nflow, npar, nscen, seed_off=0, par_exec=0, features=None, progs=None, tag=""):
+    render.HARNESS_OVERRIDE = c.harness_dir()
     """Renders programs into a scratch module. Returns (root, programs by package, jobs)."""
     rng = random.Random(c.seed * 1000003 + seed_off)
     root = os.path.join(c.scratch, "vgen%d%s" % (seed_off, tag))
@@ -218,3 +219,38 @@ def typecheck(c, root, tags=None):
     cmd = ["go", "build"] + (["-tags", tags] if tags else []) + ["./..."]
     r = subprocess.run(cmd, cwd=root, env=GOENV, capture_output=True, text=True, timeout=900)
     return r.returncode == 0, (r.stdout + r.stderr)[-3000:]
+
+
+# ------------------------------------------------------------------ the templates' transcription, model-checked
+def spec_directive(c, flows, pars, name="dir", concs=(1, 2), cancel=True, outs=("ok", "err", "panic"), timeout=3000):
+    """TLC on Flow.tla / Parallel.tla (the templates transcribed step by step, driving the monitor
+    DirSys) for the given abstract programs: every outcome, schedule, concurrency value and
+    cancellation instant; NoViolation and termination (deadlock check)."""
+    res = []
+    for kind, progs, module in (("flow", flows, "Flow"), ("par", pars, "Parallel")):
+        if not progs:
+            continue
+        path = os.path.join(c.scratch, "%s-%s.ndjson" % (name, kind))
+        with open(path, "w") as f:
+            for p in progs:
+                if not p.get("nargsexpr"):
+                    render.render_program(p)
+                f.write(json.dumps({k: v for k, v in p.items() if k != "style"}) + "\n")
+        cfg = ('CONSTANTS ProgFile = "%s"  Concs = {%s}  CANCEL = %s%s\nSPECIFICATION Spec\nINVARIANTS NoViolation%s\n' %
+               (path, ", ".join(str(x) for x in concs), str(cancel).upper(),
+                ("  OUTS = {%s}" % ", ".join('"%s"' % o for o in outs)) if module == "Parallel" else "",
+                " ResultsUntouched" if module == "Flow" else ""))
+        c.log("TLC %s.tla on %d programs" % (module, len(progs)))
+        res.append(c.tlc(module, cfg, "%s-%s" % (name, kind), workers=16, timeout=timeout))
+    return res
+
+
+def small_programs(c, nflow, npar, max_tasks=3, max_insts=4, seed_off=900):
+    rng = random.Random(c.seed * 977 + seed_off)
+    flows = [render.gen_flow(rng, "F%d" % i, max_tasks=max_tasks) for i in range(1, nflow + 1)]
+    pars = []
+    while len(pars) < npar:
+        p = render.gen_parallel(rng, "P%d" % (len(pars) + 1))
+        if 1 <= len(render.insts(p)) <= max_insts:
+            pars.append(p)
+    return flows, pars
